@@ -3,7 +3,7 @@
 (* Observers and I/O: ToCSV / ToJSON / String / ReadCSV / ReadJSON /       *)
 (* ToSQL / ReadSQL.  (Grows per property; see Csv.tla, JsonG.tla.)         *)
 (***************************************************************************)
-EXTENDS Str
+EXTENDS Sql
 
 \* a frame rebuilt with New from the observed values of another (C09): enum tables are re-derived
 RebuildSem(f) ==
@@ -23,7 +23,8 @@ ToCsvArgsBad(f, a) == a.hascols = 1 /\ (Len(a.cols) # Len(f.cols) \/ \E i \in 1.
 
 JudgeIO(e, Fr, Gr) ==
   LET R == Fr[e.recv + 1] IN
-  CASE e.op = "ToCSV" ->
+  CASE e.op \in {"ToCSV", "ToJSON"} /\ e.fired = 1 -> IORes(e.err = 1, FALSE, FALSE)   \* C15: the writer failed
+    [] e.op = "ToCSV" ->
          IF R.err THEN IORes(e.err = 1, FALSE, FALSE)
          ELSE IF ToCsvArgsBad(R, e.a) THEN IORes(e.err = 1, FALSE, FALSE)
          ELSE IF (e.a.hascols = 1 /\ HasDup(e.a.cols)) \/ Len(R.cols) = 0 THEN IORes(TRUE, FALSE, TRUE)  \* CSV cannot show a row of no fields
@@ -36,6 +37,10 @@ JudgeIO(e, Fr, Gr) ==
     [] e.op = "String" ->
          IF R.err THEN IORes(TRUE, FALSE, FALSE)          \* prints the error text, which is not specified
          ELSE IORes(e.bytes = StringSem(R, e.txt), FALSE, FALSE)
+    [] e.op = "ReadCSV" /\ e.fired = 1 ->      \* C15: the reader failed: the call must report it
+         [IORes(e.obs.len = -1, FALSE, FALSE) EXCEPT !.newf = <<ErrFrame>>, !.newd = <<e.dig>>]
+    [] e.op = "ReadJSON" /\ e.fired = 1 ->
+         [IORes(e.obs.len = -1, FALSE, FALSE) EXCEPT !.newf = <<ErrFrame>>, !.newd = <<e.dig>>]
     [] e.op = "ReadCSV" ->
          LET v == ReadCsvOK(e.a.doc, e.a.conf, e.a.parse, e.obs)
              exp == CsvFrameSem(Denote(e.a.doc, e.a.conf.delim, v # "b"), e.a.conf, e.a.parse)
@@ -51,5 +56,21 @@ JudgeIO(e, Fr, Gr) ==
          ELSE IF ~exp.err /\ (\E c \in 1..Len(exp.cols) : \E r \in 1..Len(exp.cols[c].cells) : exp.cols[c].cells[r] = <<2>>)
               THEN [IORes(TRUE, TRUE, FALSE) EXCEPT !.newf = <<ErrFrame>>, !.newd = <<e.dig>>]
          ELSE [IORes(ObsMatches(exp, e.obs) /\ rtOK, FALSE, FALSE) EXCEPT !.newf = <<exp>>, !.newd = <<e.dig>>]
+    [] e.op = "ToSQL" ->
+         IF e.fired = 1 THEN IORes(e.err = 1, FALSE, FALSE)                       \* C15: a failing driver is reported
+         ELSE IF R.err THEN IORes(e.err = 1 /\ Len(e.dcalls) = 0, FALSE, FALSE)
+         ELSE IF \E c \in 1..Len(R.cols) : R.cols[c].typ = "Undefined" THEN IORes(e.err = 1, FALSE, FALSE)
+         ELSE IORes(ToSqlOK(R, e.a.conf, e.dcalls, e.err), FALSE, FALSE)
+    [] e.op = "ReadSQL" ->
+         IF e.fired = 1 THEN [IORes(e.obs.len = -1, FALSE, FALSE) EXCEPT !.newf = <<ErrFrame>>, !.newd = <<e.dig>>]
+         ELSE
+         LET exp == ReadSqlSem(e.a.names, e.a.rows, e.a.conf, e.a.fparse)
+             prep == SelectSeq(e.dcalls, LAMBDA c : c.kind = "Prepare")
+             proto == Len(prep) = 1 /\ prep[1].stmt = e.a.query
+             rtOK == e.a.rt < 0 \/ ~SqlRoundTripApplies(Fr[e.a.rt + 1]) \/ SqlRoundTripOK(Fr[e.a.rt + 1], e.obs)
+         IN IF IsUnspec(exp) THEN [IORes(TRUE, FALSE, TRUE) EXCEPT !.newf = <<ErrFrame>>, !.newd = <<e.dig>>]
+            ELSE IF ~exp.err /\ (\E c \in 1..Len(exp.cols) : exp.cols[c].typ = "miss")
+                 THEN [IORes(TRUE, TRUE, FALSE) EXCEPT !.newf = <<ErrFrame>>, !.newd = <<e.dig>>]
+            ELSE [IORes(ObsMatches(exp, e.obs) /\ proto /\ rtOK, FALSE, FALSE) EXCEPT !.newf = <<exp>>, !.newd = <<e.dig>>]
     [] OTHER -> IORes(TRUE, TRUE, FALSE)
 =============================================================================
